@@ -142,6 +142,12 @@ func genMode(t *testing.T, p *props.Prop) {
 			fmt.Fprintf(os.Stderr, "@@RUN %d %d\n", i, rs)
 		}
 		tape := simrt.NewTape(rs, forced)
+		hb := []byte(fmt.Sprintf("%d %d", i, rs))
+		simrt.Heartbeat = func() {
+			// (rewritten rather than touched: inside the bubble time.Now is the fake
+			// clock, the kernel stamps the file with the real one)
+			os.WriteFile(progress, hb, 0o644)
+		}
 		dump := os.Getenv("SIM_DUMPTRACE") != ""
 		res := props.Execute(t, p, tape, tier, dump)
 		if dump {
